@@ -145,8 +145,11 @@ def canary_text(text, fn_names):
     return text
 
 
-def run_verus_file(path, timeout=300):
-    rc, so, se, dt = sh(["verus", path, "--output-json", "--time", "--num-threads", "4"], timeout=timeout)
+def run_verus_file(path, timeout=300, rlimit=None):
+    cmd = ["verus", path, "--output-json", "--time", "--num-threads", "4"]
+    if rlimit:
+        cmd += ["--rlimit", str(rlimit)]
+    rc, so, se, dt = sh(cmd, timeout=timeout)
     info = {"rc": rc, "wall_s": round(dt, 2), "stderr": se}
     try:
         j = json.loads(so)
@@ -233,7 +236,7 @@ def run_verus_unit(unit, repo, want_canary=True):
     open(path, "w").write(text)
     res["extraction"] = meta
     res["generated_file"] = path
-    info = run_verus_file(path)
+    info = run_verus_file(path, rlimit=unit.get("rlimit"))
     status, funcs, fails, smt_ms, nver = classify_verus(info)
     res["status"] = status
     res["obligations"] = [f for f in funcs]
@@ -257,9 +260,13 @@ def run_verus_unit(unit, repo, want_canary=True):
                 continue
             cpath = path[:-3] + "_canary_%s.rs" % n
             open(cpath, "w").write(ctext)
-            cst, _, cfails, _, _ = classify_verus(run_verus_file(cpath))
+            cinfo = run_verus_file(cpath, rlimit=min(unit.get("rlimit", 10), 10))
+            cst, _, cfails, _, _ = classify_verus(cinfo)
             failed_fns = set(fn_at_line(ctext, f["line"]) for f in cfails) if cst == "logical" else set()
-            if cst != "logical" or n not in failed_fns:
+            # running out of resources while trying to prove `false` is also a refusal (no quick contradiction)
+            res_out = cst == "undecided" and cfails and cfails[0].get("kind") == "resource" and \
+                re.search(r"rlimit[^\n]*\n\s*-->[^\n]*\n[^\n]*\n[^\n]*\b%s\b" % re.escape(n), cinfo["stderr"])
+            if not (cst == "logical" and n in failed_fns) and not res_out:
                 bad.append("%s(%s)" % (n, cst))
         res["canary"] = "fails-as-required x%d" % len(names) if not bad else "VACUOUS %s" % bad
         if bad:
